@@ -1435,7 +1435,11 @@ func (vx *Vaxis) openTty(tgts []*os.File) error {
 	}
 
 	vx.tw = newWriter(vx)
-	vx.parser = ansi.NewParser(vx.console)
+	// The input goroutine reads from its own parser. The goroutine of a
+	// suspended session may still be about to see the end of its parser when
+	// Resume installs the next one
+	parser := ansi.NewParser(vx.console)
+	vx.parser = parser
 
 	go func() {
 		defer func() {
@@ -1447,13 +1451,13 @@ func (vx *Vaxis) openTty(tgts []*os.File) error {
 		}()
 		for {
 			select {
-			case seq := <-vx.parser.Next():
+			case seq := <-parser.Next():
 				switch seq := seq.(type) {
 				case ansi.EOF:
 					return
 				default:
 					vx.handleSequence(seq)
-					vx.parser.Finish(seq)
+					parser.Finish(seq)
 				}
 			case <-vx.chSigWinSz:
 				atomicStore(&vx.resize, true)
